@@ -205,7 +205,10 @@ pub fn generate(rng: &mut Rng, tier: Tier) -> Plan {
             let names = crate::rsx::gen_names(rng, n, "r_");
             let moderate = rng.chance(0.7);
             let mut f = |r: &mut Rng| {
-                if moderate {
+                if r.chance(0.08) {
+                    // stored bytes that begin like some format's header
+                    magic_double(r)
+                } else if moderate {
                     awkward(r, 1e-3, 1e3, true)
                 } else {
                     raw_double(r)
@@ -286,7 +289,10 @@ pub fn generate(rng: &mut Rng, tier: Tier) -> Plan {
                 odd_names(rng, nv.max(1))
             };
             let mut f = |r: &mut Rng| {
-                if moderate {
+                if r.chance(0.08) {
+                    // stored bytes that begin like some format's header
+                    magic_double(r)
+                } else if moderate {
                     awkward(r, 1e-3, 1e3, true)
                 } else {
                     raw_double(r)
@@ -393,6 +399,12 @@ pub fn generate(rng: &mut Rng, tier: Tier) -> Plan {
                     n.num = n.num.with_value(v);
                 }
             }
+            // a curve of one node, or of none: accepted by every constructor (such a curve
+            // cannot be looked up, but it can be switched, saved and loaded)
+            if rng.chance(0.03) {
+                setup.nodes.sort_by_key(|n| n.ts);
+                setup.nodes.truncate(if rng.chance(0.25) { 0 } else { 1 });
+            }
             let cal = match (&setup.ctor, rng.below(3)) {
                 (c12::Ctor::Py { .. }, 0) => {
                     let w = rng.below(7) as u8;
@@ -440,7 +452,7 @@ pub fn generate(rng: &mut Rng, tier: Tier) -> Plan {
                         ops.push(Op::Update(items))
                     }
                     c10::Step::SetOrder { order, .. } => ops.push(Op::SetOrder(order)),
-                    c10::Step::Fork => {}
+                    c10::Step::Fork | c10::Step::Sibling { .. } => {}
                 }
             }
             insert_restarts(rng, &mut ops, false);
@@ -1191,8 +1203,31 @@ fn answers(o: &Obj, plan: &Plan) -> Vec<(String, u64)> {
                 }
             }
             if let ObjSpec::Curve { setup, queries, .. } = &plan.obj {
-                if setup.interp == "null" {
+                if setup.interp == "null" || setup.nodes.len() < 2 {
                     // no look-up is possible: the nodes, and the index value before the first node
+                    if setup.nodes.len() < 2 {
+                        let mut h = Fnv::new();
+                        h.u64(order_num(c.ad()) as u64);
+                        out.push(("curve ad order".into(), h.finish()));
+                        if let c12::Sut::Py(pc) = c {
+                            let mut h = Fnv::new();
+                            for (k, v) in pc.nodes() {
+                                h.u64(k.and_utc().timestamp() as u64);
+                                digest_number(&mut h, &v);
+                            }
+                            out.push(("all curve nodes".into(), h.finish()));
+                        }
+                        if let Some(first) = setup.nodes.first().map(|n| n.ts) {
+                            let d = ts_to_ndt(first - 86_400);
+                            let mut h = Fnv::new();
+                            match c.index_value(&d) {
+                                Ok(n) => digest_number(&mut h, &n),
+                                Err(_) => h.u64(0xE44),
+                            }
+                            out.push((format!("index value before the only node at {}", d), h.finish()));
+                        }
+                        return out;
+                    }
                     let first = setup.nodes.iter().map(|n| n.ts).min().unwrap_or(0);
                     if let c12::Sut::Py(pc) = c {
                         let mut h = Fnv::new();
@@ -1282,6 +1317,65 @@ fn answers(o: &Obj, plan: &Plan) -> Vec<(String, u64)> {
                         &|h, v| digest_number(h, &Number::Dual2(v.clone())),
                         &mut out,
                     ),
+                }
+                // abscissae that are themselves dual numbers: one with a variable of its own
+                // and one living on the variable storage of the spline's first coefficient
+                use rateslib::dual::Vars;
+                let push = |out: &mut Vec<(String, u64)>, label: String, r: Result<Number, ()>| {
+                    let mut h = Fnv::new();
+                    match r {
+                        Ok(n) => digest_number(&mut h, &n),
+                        Err(()) => h.u64(0xE44),
+                    }
+                    out.push((label, h.finish()));
+                };
+                for x in xs.iter().take(4) {
+                    match s {
+                        Spl::F(p) => {
+                            let p = hooks::ppspline_f64_inner(p);
+                            for m in 0..=(*p.k()).min(2) {
+                                let xd = Dual::try_new(*x, vec!["q_x".into()], vec![0.75]).unwrap();
+                                push(&mut out, format!("ppdnev_single_dual(x={:e} own variable, m={})", x, m),
+                                    p.ppdnev_single_dual(&xd, m).map(Number::Dual).map_err(|_| ()));
+                                let xd2 = Dual2::try_new(*x, vec!["q_x".into()], vec![0.75], vec![0.5]).unwrap();
+                                push(&mut out, format!("ppdnev_single_dual2(x={:e} own variable, m={})", x, m),
+                                    p.ppdnev_single_dual2(&xd2, m).map(Number::Dual2).map_err(|_| ()));
+                            }
+                        }
+                        Spl::D(p) => {
+                            let p = hooks::ppspline_dual_inner(p);
+                            for m in 0..=(*p.k()).min(2) {
+                                let xd = Dual::try_new(*x, vec!["q_x".into()], vec![0.75]).unwrap();
+                                push(&mut out, format!("ppdnev_single_dual(x={:e} own variable, m={})", x, m),
+                                    p.ppdnev_single_dual(&xd, m).map(Number::Dual).map_err(|_| ()));
+                                if let Some(c0) = p.c().as_ref().and_then(|c| c.iter().next()) {
+                                    let n = c0.vars().len();
+                                    let xs_ = Dual::clone_from(c0, *x, ndarray::Array1::from_elem(n, 0.75));
+                                    push(&mut out, format!("ppdnev_single_dual(x={:e} on the first coefficient's variables, m={})", x, m),
+                                        p.ppdnev_single_dual(&xs_, m).map(Number::Dual).map_err(|_| ()));
+                                }
+                            }
+                        }
+                        Spl::D2(p) => {
+                            let p = hooks::ppspline_dual2_inner(p);
+                            for m in 0..=(*p.k()).min(2) {
+                                let xd2 = Dual2::try_new(*x, vec!["q_x".into()], vec![0.75], vec![0.5]).unwrap();
+                                push(&mut out, format!("ppdnev_single_dual2(x={:e} own variable, m={})", x, m),
+                                    p.ppdnev_single_dual2(&xd2, m).map(Number::Dual2).map_err(|_| ()));
+                                if let Some(c0) = p.c().as_ref().and_then(|c| c.iter().next()) {
+                                    let n = c0.vars().len();
+                                    let xs_ = Dual2::clone_from(
+                                        c0,
+                                        *x,
+                                        ndarray::Array1::from_elem(n, 0.75),
+                                        ndarray::Array2::from_elem((n, n), 0.25),
+                                    );
+                                    push(&mut out, format!("ppdnev_single_dual2(x={:e} on the first coefficient's variables, m={})", x, m),
+                                        p.ppdnev_single_dual2(&xs_, m).map(Number::Dual2).map_err(|_| ()));
+                                }
+                            }
+                        }
+                    }
                 }
             }
         }
